@@ -72,6 +72,10 @@ NewStream(cfg, k) ==
         lastSl |-> <<>>,   \* <<mid, idx>> -> time of the last transmission
         ackS   |-> {},     \* mids for which an ack of a carrying packet was processed
         ackSl  |-> {},     \* <<mid, idx>> likewise
+        cB     |-> 0,      \* C09: bytes of reliable messages complete at the receiver (each message once)
+        gB     |-> 0,      \* C09: bytes of messages obtained by the application
+        openB  |-> 0,      \* C09: n*SLICE over reliable reassemblies that are legitimately open
+        uOpen  |-> <<>>,   \* C09: unreliable reassemblies legitimately open: usid -> [n, got, len, last]
         uFl    |-> <<>>,   \* unreliable: cid -> flush number in which it was emitted
         uSent  |-> <<>>    \* unreliable: accepted [cid, len, fl] since last flush (fl = flush count at send)
        ]
@@ -91,7 +95,7 @@ Props(o) == Range(o.cfg.props)
 \* history is only kept for the clauses that are evaluated in this run (keeps the monitor state small)
 Want(o, P) == Props(o) \cap P # {}
 WantAcc(o)  == Want(o, {"C02", "C08", "C09", "C15"})
-WantHand(o) == Want(o, {"C02", "C08"})
+WantHand(o) == Want(o, {"C02", "C08", "C09"})
 WantTx(o)   == Want(o, {"C15"})
 WantCnt(o)  == Want(o, {"C01", "C02", "C03"})
 Flag(o, F) == [o EXCEPT !.flags = @ \cup F]
@@ -117,6 +121,34 @@ ReleaseCheck(o, conn, side, st) ==
         o1  == [o EXCEPT !.str = [k \in DOMAIN o.str |-> IF k \in ks THEN [o.str[k] EXCEPT !.relSeen = Rel(k)] ELSE o.str[k]]]
     IN  FlagIf(o1, bad # {}, <<"C08", "ReleaseSound">>)
 
+\* C09: what the observer can justify, from API-visible facts only, as accounted to a channel
+NeedS(o, s, st) ==
+    IF s.kind = "U" THEN SumSeq([j \in 1..Len(s.uSent) |-> s.uSent[j].len], 1)
+    ELSE LET un == IF s.ci \in DOMAIN st.unacked THEN st.unacked[s.ci] ELSE <<>>
+         IN SumSeq([j \in 1..Len(un) |-> IF un[j] >= 0 /\ un[j] < Len(s.acc) THEN s.acc[un[j] + 1].len ELSE 0], 1)
+RECURSIVE SumOpen(_, _)
+SumOpen(uo, ids) == IF ids = {} THEN 0 ELSE LET x == CHOOSE y \in ids : TRUE IN uo[x].n * SLICE + SumOpen(uo, ids \ {x})
+NeedR(o, s) == (s.cB - s.gB) + (IF s.kind = "U" THEN SumOpen(s.uOpen, DOMAIN s.uOpen) ELSE s.openB)
+
+NoLeakOK(o, conn, side, st) ==
+    /\ \A k \in {x \in DOMAIN o.str : x[1] = conn /\ x[2] = SendDir(side)} :
+          LET s == o.str[k] IN s.ci \in DOMAIN st.avail => (s.max - st.avail[s.ci]) <= NeedS(o, s, st)
+    /\ \A k \in {x \in DOMAIN o.str : x[1] = conn /\ x[2] = RecvDir(side)} :
+          LET s == o.str[k] IN s.ci \in DOMAIN st.rmem => st.rmem[s.ci] <= NeedR(o, s)
+
+\* C09: a memory-exhaustion disconnect is justified if the legitimately accounted bytes (before the call) plus the
+\* generous size of what the call brings (the message, every message of the packet, the whole reservation of a
+\* slice) exceed the channel budget
+MemDiscJustified(o, e) ==
+    IF e.ev = "send" THEN
+        LET k == <<e.conn, e.dir, e.ch>> IN
+        k \notin DOMAIN o.str \/ NeedS(o, o.str[k], e.st0) + e.len > o.str[k].max
+    ELSE IF e.ev = "deliver" THEN
+        LET k == <<e.conn, e.dir, e.p.ch>>
+            incoming == IF e.p.kind = "SR" THEN e.p.pay ELSE e.p.sl.n * SLICE
+        IN k \notin DOMAIN o.str \/ e.label # "genuine" \/ NeedR(o, o.str[k]) + incoming > o.str[k].max
+    ELSE FALSE
+
 EpSeen(o, e) ==
     LET k == <<e.conn, e.side>> IN
     IF k \notin DOMAIN o.ep THEN o ELSE
@@ -130,7 +162,12 @@ EpSeen(o, e) ==
         was == o.ep[k]
         o6 == FlagIf(o5, was.seen /\ was.status = "Disc" /\ (st.status # "Disc" \/ st.reason # was.reason) /\ st.status # "Gone",
                      <<"C12", "Absorbing">>)
-    IN o6
+        o7 == IF "C09" \in Props(o) /\ Alive(st.status) /\ e.ev # "flush"
+              THEN FlagIf(o6, ~NoLeakOK(o6, e.conn, e.side, st), <<"C09", "NoLeak">>) ELSE o6
+        \* C09: a disconnect for exhausted channel memory must be justified by what legitimately occupies the channel
+        o8 == IF "C09" \in Props(o) /\ st.status = "Disc" /\ was.status # "Disc" /\ st.reason \in {"SendMem", "RecvMem"}
+              THEN FlagIf(o7, ~MemDiscJustified(o, e), <<"C09", "NoSpuriousDisconnect">>) ELSE o7
+    IN o8
 
 (***************************************************************************)
 (* send_message                                                            *)
@@ -147,7 +184,7 @@ ObsSend(o, e) ==
         s1 == [s EXCEPT !.sub = IF s.kind = "RO" /\ Want(o, {"C01"}) THEN Append(@, e.cid) ELSE @,
                         !.subN = IF WantCnt(o) THEN Put(@, e.cid, Get(@, e.cid, 0) + 1) ELSE @,
                         !.acc = IF accepted /\ s.kind # "U" /\ WantAcc(o) THEN Append(@, [cid |-> e.cid, len |-> e.len]) ELSE @,
-                        !.uSent = IF accepted /\ s.kind = "U" /\ Want(o, {"C14"}) THEN Append(@, [cid |-> e.cid, len |-> e.len, fl |-> nfl]) ELSE @]
+                        !.uSent = IF accepted /\ s.kind = "U" /\ Want(o, {"C14", "C09"}) THEN Append(@, [cid |-> e.cid, len |-> e.len, fl |-> nfl]) ELSE @]
         \* C12: a disconnected endpoint accepts nothing (its accounting does not move)
         o1 == FlagIf([o EXCEPT !.str[k] = s1],
                      e.st0.status = "Disc" /\ (e.st1.avail # e.st0.avail \/ e.st1.unacked # e.st0.unacked), <<"C12", "Absorbing">>)
@@ -165,7 +202,7 @@ ObsRecv(o, e) ==
         n1  == IF e.some THEN s.nGot + 1 ELSE s.nGot
         g1  == IF e.some /\ WantCnt(o) THEN Put(s.gotN, e.cid, Get(s.gotN, e.cid, 0) + 1) ELSE s.gotN
         owed1 == IF e.some /\ Get(s.complN, e.cid, 0) <= Get(g1, e.cid, 0) THEN s.owed \ {e.cid} ELSE s.owed
-        s1  == [s EXCEPT !.nGot = n1, !.gotN = g1, !.owed = owed1]
+        s1  == [s EXCEPT !.nGot = n1, !.gotN = g1, !.owed = owed1, !.gB = IF e.some THEN @ + e.len ELSE @]
         F == (IF e.some /\ e.cid \notin DOMAIN s.subN THEN {<<"C03", "Same">>} ELSE {})
              \cup (IF e.some /\ s.kind = "RO" /\ Want(o, {"C01"}) /\ ~(n1 <= Len(s.sub) /\ s.sub[n1] = e.cid)
                    THEN {<<"C01", "Prefix">>} ELSE {})
@@ -187,7 +224,8 @@ MarkComplete(s, m) ==
     LET c  == s.acc[m + 1].cid
         cn == Get(s.complN, c, 0) + 1
     IN [s EXCEPT !.compl = @ \cup {m}, !.complN = Put(@, c, cn),
-                 !.owed = IF cn > Get(s.gotN, c, 0) THEN @ \cup {c} ELSE @]
+                 !.owed = IF cn > Get(s.gotN, c, 0) THEN @ \cup {c} ELSE @,
+                 !.cB = @ + s.acc[m + 1].len]
 
 RECURSIVE HandSmall(_, _, _)
 HandSmall(s, msgs, i) ==
@@ -204,13 +242,29 @@ HandSlice(s, sl) ==
                 /\ sl.idx >= 0 /\ sl.idx < sl.n
     IN IF ~ok THEN s ELSE
        LET h1 == s.hSl \cup {<<sl.mid, sl.idx>>}
-           s1 == [s EXCEPT !.hSl = h1]
-       IN IF \A i \in 0..(sl.n - 1) : <<sl.mid, i>> \in h1 THEN MarkComplete(s1, sl.mid) ELSE s1
+           first == sl.mid \notin s.compl /\ ~(\E i \in 0..(sl.n - 1) : <<sl.mid, i>> \in s.hSl)
+           done == \A i \in 0..(sl.n - 1) : <<sl.mid, i>> \in h1
+           \* a reassembly opens with the first slice and closes when the message is complete
+           s1 == [s EXCEPT !.hSl = h1,
+                           !.openB = IF sl.mid \in s.compl THEN @
+                                     ELSE IF first /\ ~done THEN @ + sl.n * SLICE
+                                     ELSE IF ~first /\ done THEN @ - sl.n * SLICE ELSE @]
+       IN IF done THEN MarkComplete(s1, sl.mid) ELSE s1
 
 RECURSIVE CreditSmall(_, _, _)
 CreditSmall(s, msgs, i) ==
     IF i > Len(msgs) THEN s ELSE
-    CreditSmall([s EXCEPT !.uCred = Put(@, msgs[i].cid, Get(@, msgs[i].cid, 0) + 1)], msgs, i + 1)
+    CreditSmall([s EXCEPT !.uCred = Put(@, msgs[i].cid, Get(@, msgs[i].cid, 0) + 1), !.cB = @ + msgs[i].len], msgs, i + 1)
+
+\* C09: an unreliable reassembly is open from its first slice until it completes or 3 s pass without a slice of it
+UOpenSlice(s, sl, now) ==
+    IF ~(sl.idx >= 0 /\ sl.idx < sl.n /\ sl.n < 100000) THEN s ELSE
+    LET cur == Get(s.uOpen, sl.mid, [n |-> sl.n, got |-> {}, len |-> 0, last |-> now])
+        isnew == sl.idx \notin cur.got
+        c1 == [cur EXCEPT !.got = @ \cup {sl.idx}, !.len = IF isnew THEN @ + sl.len ELSE @, !.last = now]
+    IN IF c1.got = 0..(c1.n - 1)
+       THEN [s EXCEPT !.uOpen = Drop(@, {sl.mid}), !.cB = @ + c1.len]
+       ELSE [s EXCEPT !.uOpen = Put(@, sl.mid, c1)]
 
 CreditSlice(s, sl) ==
     IF ~(sl.idx >= 0 /\ sl.idx < sl.n /\ sl.n < 100000) THEN s ELSE
@@ -250,8 +304,9 @@ ObsDeliver(o, e) ==
               THEN LET s == o1.str[k] IN
                    CASE p.kind = "SR" /\ s.kind # "U" /\ WantHand(o) -> [o1 EXCEPT !.str[k] = HandSmall(s, p.msgs, 1)]
                      [] p.kind = "RS" /\ s.kind # "U" /\ WantHand(o) -> [o1 EXCEPT !.str[k] = HandSlice(s, p.sl)]
-                     [] p.kind = "SU" /\ s.kind = "U" /\ Want(o, {"C03"}) -> [o1 EXCEPT !.str[k] = CreditSmall(s, p.msgs, 1)]
+                     [] p.kind = "SU" /\ s.kind = "U" /\ Want(o, {"C03", "C09"}) -> [o1 EXCEPT !.str[k] = CreditSmall(s, p.msgs, 1)]
                      [] p.kind = "US" /\ s.kind = "U" /\ Want(o, {"C03"}) -> [o1 EXCEPT !.str[k] = CreditSlice(s, p.sl)]
+                     [] p.kind = "US" /\ s.kind = "U" /\ Want(o, {"C09"}) -> [o1 EXCEPT !.str[k] = UOpenSlice(s, p.sl, o1.ep[ek].now)]
                      [] OTHER -> o1
               ELSE o1
         o3 == IF handed /\ genuine /\ p.kind = "ACK" /\ ek \in DOMAIN o2.ep /\ WantTx(o)
@@ -357,7 +412,7 @@ ObsFlush(o, e) ==
              \cup (IF "C14" \in Props(o) /\ ~UnrelWholeOK(o, e, nfl) THEN {<<"C14", "UnreliableWhole">>} ELSE {})
         o1 == IF WantTx(o) THEN FlushPk(o, e, pk, 1, t) ELSE o
         \* unreliable messages queued before this flush are gone after it (sent or dropped)
-        o2 == IF Want(o, {"C14"})
+        o2 == IF Want(o, {"C14", "C09"})
               THEN [o1 EXCEPT !.ep[ek].nfl = nfl,
                          !.str = [k \in DOMAIN o1.str |->
                                     IF k[1] = e.conn /\ k[2] = e.dir /\ o1.str[k].kind = "U" /\ Alive(e.st0.status)
@@ -372,7 +427,13 @@ ObsUpdate(o, e) ==
     LET eks == IF e.side = "S" THEN {k \in DOMAIN o.ep : k[2] = "S"} ELSE {<<e.conn, "C">>} \cap DOMAIN o.ep
         Upd(ep) == [ep EXCEPT !.now = e.t,
                               !.sent = IF WantTx(o) THEN Drop(@, {q \in DOMAIN @ : e.t - @[q].t >= HORIZON}) ELSE @]
-        o1 == [o EXCEPT !.ep = [k \in DOMAIN o.ep |-> IF k \in eks THEN Upd(o.ep[k]) ELSE o.ep[k]]]
+        o0 == [o EXCEPT !.ep = [k \in DOMAIN o.ep |-> IF k \in eks THEN Upd(o.ep[k]) ELSE o.ep[k]]]
+        \* C09: unreliable fragments stop counting after 3 s without progress
+        Stale(s) == {u \in DOMAIN s.uOpen : e.t - s.uOpen[u].last >= HORIZON}
+        o1 == IF ~Want(o, {"C09"}) THEN o0
+              ELSE [o0 EXCEPT !.str = [k \in DOMAIN o0.str |->
+                        IF o0.str[k].kind = "U" /\ <<k[1], ReceiverOf(k[2])>> \in eks
+                        THEN [o0.str[k] EXCEPT !.uOpen = Drop(@, Stale(o0.str[k]))] ELSE o0.str[k]]]
     IN IF e.conn = 0 THEN o1 ELSE EpSeen(o1, e)
 
 (***************************************************************************)
@@ -412,6 +473,14 @@ Dispatch(o, e) ==
       [] e.ev = "round_end" -> ObsRoundEnd(o, e)
       [] e.ev = "api"       -> ObsApi(o, e)
       [] OTHER              -> o
+
+\* diagnostics attached to a flagged event (not part of any verdict)
+Detail(o, e) ==
+    IF "side" \notin DOMAIN e \/ "st1" \notin DOMAIN e THEN <<>>
+    ELSE [k \in {x \in DOMAIN o.str : x[1] = e.conn} |->
+            LET s == o.str[k] IN
+            [kind |-> s.kind, needR |-> NeedR(o, s), needS |-> NeedS(o, s, e.st1), cB |-> s.cB, gB |-> s.gB, openB |-> s.openB,
+             nacc |-> Len(s.acc), ncompl |-> Cardinality(s.compl), uopen |-> DOMAIN s.uOpen]]
 
 ObsStep(o, e) ==
     IF e.ev = "reset" THEN ObsReset(e.cfg) ELSE
